@@ -217,6 +217,9 @@ C06_Controller(X) ==
           ELSE <<ch, ad.cc>> \in DOMAIN X.ccv1 /\
                CCValueOK(X.ccv1[<<ch, ad.cc>>], IF cn THEN <<v[1] + v[2], 2 * v[2]>> ELSE v)
 
+\* "0-16383 with 8192 as centre": the statement fixes the centre and the ends; between them both the
+\* linear map 16383*(b+1)/2 and the two-segment map through 8192 are readings of "the exact value"
+\* (they differ by at most 1/2), so a value within one step of either is accepted
 C06_PitchBend(X) ==
   (Transmitted(X) /\ AxisIsType(X.c, X.pre, X.in.a, "pitch_bend")) =>
      LET ad == AxisDef(X.c, X.pre, X.in.a)
@@ -224,8 +227,9 @@ C06_PitchBend(X) ==
          ch == (X.pre.chan + ad.off) % 16
      IN /\ ch \in DOMAIN X.pb1
         /\ LET v == X.pb1[ch]
-           IN /\ IF b[1] < 0 THEN Within1(8192 - v, 8192, <<-b[1], b[2]>>)
-                            ELSE Within1(v - 8192, 8191, b)
+           IN /\ \/ Within1(v, 16383, <<b[1] + b[2], 2 * b[2]>>)
+                 \/ IF b[1] < 0 THEN Within1(8192 - v, 8192, <<-b[1], b[2]>>)
+                                ELSE Within1(v - 8192, 8191, b)
               /\ (b[1] = 0 => v = 8192)
               /\ (b[1] = b[2] => v = 16383)
               /\ (b[1] = -b[2] => v = 0)
